@@ -151,6 +151,34 @@ UserOnly(defs, patches) ==
 PatchTable(defs, patches) == UserOnly(defs, patches) \o PatchL(defs, 1, patches, {})
 
 ----------------------------------------------------------------------------
+\* Conditional inclusion of the macro header files (cleanup_macros).  A file is a sequence of logical lines
+\*   [d |-> "ifdef" | "ifndef" | "else" | "endif" | "include" | "blank" | "comment" | "text", n |-> name, toks |-> tokens]
+\* (continuation lines already spliced, C11 5.1.1.2 phase 2; a #define is "text").  Standard conditional inclusion
+\* (C11 6.10.1) with a stack of groups, under the macro environment of the pipeline: QEMU_GENERATE and
+\* CONFIG_USER_ONLY are NOT defined.  Two deliberate deviations of the pipeline, named here:
+\*   FlattenOther : a condition on any other name (include guards, FIXME) keeps BOTH groups, in file order, so the
+\*                  group standard preprocessing would take comes last and wins when the table is built;
+\*   VecBoth      : in the vector macro file the groups under #ifdef QEMU_GENERATE are kept as well (their macros
+\*                  have no other definition).
+Known(it, vec) == it.d = "ifdef" /\ it.n \in {"QEMU_GENERATE", "CONFIG_USER_ONLY"} /\ ~(vec /\ it.n = "QEMU_GENERATE")
+RECURSIVE CleanL(_, _, _, _)
+CleanL(items, i, stack, vec) ==
+    IF i > Len(items) THEN <<>>
+    ELSE
+    LET it == items[i]
+        active == \A f \in 1..Len(stack) : stack[f].on
+        n == Len(stack)
+    IN  CASE it.d \in {"ifdef", "ifndef"} ->
+                CleanL(items, i + 1, Append(stack, [on |-> ~Known(it, vec), flat |-> ~Known(it, vec)]), vec)
+          [] it.d = "else" /\ n > 0 ->
+                CleanL(items, i + 1, [stack EXCEPT ![n] = IF @.flat THEN @ ELSE [@ EXCEPT !.on = ~@]], vec)
+          [] it.d = "endif" /\ n > 0 -> CleanL(items, i + 1, SubSeq(stack, 1, n - 1), vec)
+          [] it.d \in {"include", "blank", "comment", "else", "endif"} -> CleanL(items, i + 1, stack, vec)
+          [] OTHER -> (IF active /\ it.toks # <<>> THEN <<it.toks>> ELSE <<>>) \o CleanL(items, i + 1, stack, vec)
+RECURSIVE CleanFiles(_, _)
+CleanFiles(files, k) == IF k > Len(files) THEN <<>> ELSE CleanL(files[k].items, 1, <<>>, files[k].vec) \o CleanFiles(files, k + 1)
+
+----------------------------------------------------------------------------
 VARIABLES x, verdict
 Verdict(it) ==
     IF it.kind = "resolve" THEN
@@ -167,6 +195,12 @@ Verdict(it) ==
     ELSE IF it.kind = "patch" THEN
         (IF PatchTable(it.defs, it.patches) = it.res THEN [ok |-> TRUE]
          ELSE [ok |-> FALSE, why |-> "patched macro table differs", exp |-> PatchTable(it.defs, it.patches), got |-> it.res])
+    ELSE IF it.kind = "clean" THEN
+        LET e == CleanFiles(it.files, 1) IN
+        (IF e = it.res THEN [ok |-> TRUE]
+         ELSE LET n == CHOOSE k \in 1..(Len(e) + 1) : (k > Len(e) \/ k > Len(it.res) \/ e[k] # it.res[k]) /\ \A q \in 1..(k - 1) : q <= Len(it.res) /\ e[q] = it.res[q]
+              IN  [ok |-> FALSE, why |-> "cleaned macro lines differ at logical line " \o ToString(n),
+                   exp |-> IF n <= Len(e) THEN e[n] ELSE <<"<end>">>, got |-> IF n <= Len(it.res) THEN it.res[n] ELSE <<"<end>">>])
     ELSE [ok |-> FALSE, why |-> "unknown item"]
 
 Init == x \in 1..Len(Items) /\ verdict = <<>>
